@@ -40,6 +40,7 @@ func init() {
 				add(c11In{K: "cast", Doc: d})
 			}
 			c11Retrieval(tier, r, docs, add)
+			rangeSplitCases(add) // ids (negative ones, several conjunction positions) through the range container's split pieces
 			n := 3000
 			if tier == "thorough" {
 				n = 250000
